@@ -138,14 +138,17 @@ def planted(draw):
         n = 70 + j
         text = shape % ((n,) * shape.count("%d")) if "%d" in shape \
             else shape + " %d +" % n
+        if texts and draw(st.integers(0, 2)) == 0:
+            # the very same invalid text at a second site
+            text = texts[0]["text"]
         old = cont[key]
         as_alt = draw(st.integers(0, 5)) == 0 and old[0] not in (
             "default", "nothing")
         if as_alt:
             # a later pipe alternative behind something that succeeds
-            cont[key] = ["pipe", [old, ["invalid", text]]]
+            cont[key] = ["pipe", [old, ["invalid", text, j]]]
         else:
-            cont[key] = ["invalid", text]
+            cont[key] = ["invalid", text, j]
         texts.append({"text": text, "alt": as_alt})
     return {"nodes": nodes, "bindings": case["bindings"], "planted": texts}
 
@@ -170,9 +173,34 @@ class Planted(Part):
                 if e[0] == "pipe" and exprs.has(e, "invalid"):
                     inv = [a for a in e[1] if a[0] == "invalid"][0]
                     cont[key] = inv
+            # ... and a text node / attribute value with several ${} is one
+            # unit as well: it fails before any of its parts is evaluated
+
+            def unit(parts):
+                bad = [p for p in parts if p[0] == "interp" and
+                       exprs.has(p[1], "invalid")]
+                if bad:
+                    first = [p for p in parts if p[0] == "interp"][0]
+                    inv = bad[0][1]
+                    while inv[0] != "invalid":
+                        inv = [a for a in inv[1] if exprs.has(a, "invalid")
+                               or a[0] == "invalid"][0]
+                    first[1] = inv
+
+            def walk(ns):
+                for n in ns:
+                    if n[0] == "text":
+                        unit(n[1])
+                    elif n[0] == "elem":
+                        for a in n[1]["attrs"]:
+                            unit(a[3])
+                        walk(n[1]["children"])
+            walk(nodes)
         r = tmodel.run_model(nodes, env)
         if r[0] == "exc":
             if isinstance(r[1], exprs.ExpressionError):
+                self.reached_uid = r[1].args[1] if len(r[1].args) > 1 \
+                    else None
                 return ("invalid", r[1].args[0]), r[2]
             return ("exc", type(r[1]).__name__), r[2]
         return ("out", r[1]), r[2]
@@ -246,13 +274,59 @@ class Planted(Part):
             got = ("exc", r.exc_name)
         detail.update(got=got)
         if got == exp:
+            if got[0] == "invalid" and texts.count(got[1]) > 1 and \
+                    not any(p["alt"] for p in case["planted"]):
+                # the same invalid text stands at several sites: the
+                # reported position must be the one that was reached
+                true = self.offset_of(case, getattr(self, "reached_uid",
+                                                    None))
+                roff = r.exc.offset
+                if true is not None and roff != true and not \
+                        self.entity_before(src, true):
+                    return Mismatch("planted:non-strict error points at "
+                                    "another occurrence", dict(
+                                        detail, offset=roff, reached=true))
             return None
-        if any(p["alt"] for p in case["planted"]):
-            dexp, dlog = self.model(case, whole_expr=True)
-            if got == dexp:
-                return Mismatch("planted:K7", detail)
+        dexp, dlog = self.model(case, whole_expr=True)
+        if got == dexp and dexp != exp:
+            # the deferred unit is larger than the invalid expression (whole
+            # TALES expression / whole text node or attribute value)
+            return Mismatch("planted:K7", detail)
         return Mismatch("planted:non-strict %s vs %s" % (got[0], exp[0]),
                         detail)
+
+    @staticmethod
+    def entity_before(src, true):
+        start = max(src.rfind('="', 0, true), src.rfind("='", 0, true),
+                    src.rfind("${", 0, true))
+        return start >= 0 and "&" in src[start:true]
+
+    def offset_of(self, case, uid):
+        """Source offset of the planted site ``uid`` (found by re-serializing
+        the template with that one site's text changed in one character)."""
+        if uid is None:
+            return None
+        nodes = copy.deepcopy(case["nodes"])
+        mark = []
+
+        def walk(x):
+            if isinstance(x, list):
+                if len(x) == 3 and x[0] == "invalid" and x[2] == uid:
+                    t = x[1]
+                    x[1] = "\x01" + t[1:] if t else t
+                    mark.append(x[1])
+                for y in x:
+                    walk(y)
+            elif isinstance(x, dict):
+                for y in x.values():
+                    walk(y)
+        walk(nodes)
+        if not mark:
+            return None
+        text = tmodel.serialize(nodes).text()
+        i = text.find(mark[0].strip() if not mark[0].startswith("\x01")
+                      else mark[0])
+        return i if i >= 0 else None
 
     @staticmethod
     def planted_for(src, tok, off, texts):
